@@ -476,10 +476,20 @@ type c45Case struct {
 	SavePath string
 	OldMode  os.FileMode
 	Comment  bool
+	// LongName: the configuration file has a 245-character name, so that no sibling file
+	// with a longer name (name + suffix) can be created next to it (ENAMETOOLONG)
+	LongName bool
 }
 
 func (c c45Case) doc() map[string]any {
-	return map[string]any{"name": c.Name, "savePath": c.SavePath, "oldMode": fmt.Sprintf("%o", c.OldMode), "old": c.Old, "new": c.New, "oldHasComment": c.Comment}
+	return map[string]any{"name": c.Name, "savePath": c.SavePath, "oldMode": fmt.Sprintf("%o", c.OldMode), "old": c.Old, "new": c.New, "oldHasComment": c.Comment, "configFileNameHas245Characters": c.LongName}
+}
+
+func (c c45Case) fileName() string {
+	if c.LongName {
+		return strings.Repeat("c", 240) + ".yaml"
+	}
+	return "client.yaml"
 }
 
 func runChild(t *testing.T, job *c45Job, dir string) (stdout string, ws syscall.WaitStatus, err error) {
@@ -516,7 +526,7 @@ func loadImage(dir string, img []byte) (c45State, error) {
 
 func TestC45(t *testing.T) {
 	rec := ev.New(t, "C45")
-	rec.Rule("Case = (previous config, new config, save path, fault). Configs: PEM certificate (1-2 blocks), PEM key (one real ed25519 key per run, else random PEM of 3 sizes), 0..5 tunnels over http/https/tcp/unix targets with YAML-hostile option strings; old file mode 0600/0644, optionally with a hand-written comment; save paths Config.writeFile (certificate+key+tunnels change), Client.RebuildTunnels (tunnels change), Client.UpdateApex (only apex changes). The save runs in a child process (re-exec of the test binary). Fault family 1, short writes (RLIMIT_FSIZE=n): mode efbig enumerates EVERY n in 0..len(new)+2 (thorough: all cases; quick: 2 generated cases, the others take 0, 1, every YAML line boundary -1/0/+1, the end and 60 sampled n; write fails with EFBIG, process stops), mode kill takes n=0, len-1, len and sampled n (SIGXFSZ kills the process inside write). Fault family 2, crash at system-call boundaries: an uninterrupted save of the prepared child is traced once (strace attached to the child's locked thread, classes %file,%desc) to discover the file operations the save issues (openat, fchmod, write..., fsync, close, rename..., unlink..., whatever appears; only read-only calls such as stat/read/fcntl/epoll are skipped); then for every operation i the child is re-run and killed with SIGKILL on ENTERING that call (strace -e inject=<syscall>:signal=SIGKILL:when=<k>), i.e. after operations 1..i-1 completed and before operation i (thorough: every operation of every case; quick: witness + first generated case every operation, two more cases every non-write operation plus first/last write). Histories of two saves: after a boundary crash that left extra files in the directory, the client is started again IN THAT DIRECTORY and performs an uninterrupted save of a shorter configuration (previous identity, at most one tunnel); the file must then load as exactly that configuration (thorough: after every such crash point; quick: the first six and the last per case). Oracle: after the stop the config path exists and client.NewConfig loads the previous or the new config (certificate, key, tunnels); when nothing was interrupted it is the new one. Non-trivial: the fault interrupts the save (n < len(new bytes), or the process was killed at the boundary). Distinct = distinct (case, fault).")
+	rec.Rule("Case = (previous config, new config, save path, fault). Configs: PEM certificate (1-2 blocks), PEM key (one real ed25519 key per run, else random PEM of 3 sizes), 0..5 tunnels over http/https/tcp/unix targets with YAML-hostile option strings; old file mode 0600/0644, optionally with a hand-written comment; one case in five keeps the configuration in a file with a 245-character name, next to which no file with a longer name can be created (a save that cannot be carried out there must leave the previous file untouched - counted as a clean refusal - or be as crash-safe as any other); save paths Config.writeFile (certificate+key+tunnels change), Client.RebuildTunnels (tunnels change), Client.UpdateApex (only apex changes). The save runs in a child process (re-exec of the test binary). Fault family 1, short writes (RLIMIT_FSIZE=n): mode efbig enumerates EVERY n in 0..len(new)+2 (thorough: all cases; quick: 2 generated cases, the others take 0, 1, every YAML line boundary -1/0/+1, the end and 60 sampled n; write fails with EFBIG, process stops), mode kill takes n=0, len-1, len and sampled n (SIGXFSZ kills the process inside write). Fault family 2, crash at system-call boundaries: an uninterrupted save of the prepared child is traced once (strace attached to the child's locked thread, classes %file,%desc) to discover the file operations the save issues (openat, fchmod, write..., fsync, close, rename..., unlink..., whatever appears; only read-only calls such as stat/read/fcntl/epoll are skipped); then for every operation i the child is re-run and killed with SIGKILL on ENTERING that call (strace -e inject=<syscall>:signal=SIGKILL:when=<k>), i.e. after operations 1..i-1 completed and before operation i (thorough: every operation of every case; quick: witness + first generated case every operation, two more cases every non-write operation plus first/last write). Histories of two saves: after a boundary crash that left extra files in the directory, the client is started again IN THAT DIRECTORY and performs an uninterrupted save of a shorter configuration (previous identity, at most one tunnel); the file must then load as exactly that configuration (thorough: after every such crash point; quick: the first six and the last per case). Oracle: after the stop the config path exists and client.NewConfig loads the previous or the new config (certificate, key, tunnels); when nothing was interrupted it is the new one. Non-trivial: the fault interrupts the save (n < len(new bytes), or the process was killed at the boundary). Distinct = distinct (case, fault).")
 	rec.Assume("a process stop leaves exactly what the completed system calls put on disk (RLIMIT_FSIZE: the crossing write is shortened to the limit, the next one fails; strace injection: the call being entered is not executed); page-cache loss on power failure is not modelled", "stray temporary/backup files next to the config are allowed", "the previous file exists and loads (a first save has nothing to lose)", "the save's system calls run on the thread the child locked itself to (Go issues file calls on the calling goroutine's thread); an injection that does not fire is counted and judged as an uninterrupted save")
 	rec.Exhaustive(false)
 
@@ -547,6 +557,7 @@ func TestC45(t *testing.T) {
 	for i := 0; i < nCases; i++ {
 		c := c45Case{Name: fmt.Sprintf("g%d", i), Old: genState(r, i == 0), OldMode: []os.FileMode{0o600, 0o644}[r.Intn(2)], Comment: r.Intn(4) == 0}
 		c.SavePath = []string{"writeFile", "rebuild", "apex", "writeFile"}[i%4]
+		c.LongName = i%5 == 3
 		switch c.SavePath {
 		case "writeFile":
 			c.New = genState(r, false)
@@ -603,16 +614,23 @@ func TestC45(t *testing.T) {
 		cfgDir := filepath.Join(dir, "cfg")
 		os.MkdirAll(cfgDir, 0o755)
 		defer os.RemoveAll(dir)
-		job := &c45Job{Dir: cfgDir, Path: filepath.Join(cfgDir, "client.yaml"), OldImage: filepath.Join(dir, "old.img"), OldMode: uint32(c.OldMode), SavePath: c.SavePath, New: c.New}
+		job := &c45Job{Dir: cfgDir, Path: filepath.Join(cfgDir, c.fileName()), OldImage: filepath.Join(dir, "old.img"), OldMode: uint32(c.OldMode), SavePath: c.SavePath, New: c.New}
 
 		// previous config: written by the repository's own writer, unlimited
-		oc := client.VerifNewConfigAt(job.Path)
+		// (written under a short name first: the writer needs room for a sibling file)
+		prevPath := filepath.Join(dir, "previous.yaml")
+		oc := client.VerifNewConfigAt(prevPath)
 		oc.Apex, oc.Certificate, oc.PrivKey, oc.Tunnels = c.Old.Apex, c.Old.Cert, c.Old.Key, c.Old.Tunnels
 		if err := oc.VerifWriteFile(); err != nil {
 			broken("cannot write previous config: %v", err)
 			return
 		}
-		oldBytes, _ := os.ReadFile(job.Path)
+		oldBytes, _ := os.ReadFile(prevPath)
+		os.Remove(prevPath)
+		if err := os.WriteFile(job.Path, oldBytes, c.OldMode); err != nil {
+			broken("cannot place previous config: %v", err)
+			return
+		}
 		if c.Comment {
 			oldBytes = append([]byte("# specter client configuration - edited by hand\n"), oldBytes...)
 		}
@@ -654,6 +672,15 @@ func TestC45(t *testing.T) {
 		doc := c.doc()
 		if ref.Panic != "" {
 			report(c45SigPanic, doc, "save path panicked without any fault: %s", ref.Panic)
+			return
+		}
+		if c.LongName && bytes.Equal(newBytes, oldBytes) && !sameIdentity(c.Old, c.New) {
+			// the save could not be carried out where the file lives (no sibling file can be
+			// created) and left the previous configuration untouched: a refusal, not a loss.
+			// Nothing was written, so there is nothing to interrupt.
+			rec.Case(true, fmt.Sprintf("%s|refused|%x", c.Name, sha256.Sum256([]byte(fmt.Sprint(c.doc())))), func() any {
+				return map[string]any{"case": c.Name, "save": c.SavePath, "mode": "save-refused-previous-file-untouched", "saveErr": ref.Err}
+			}, "mode:save-refused-cleanly(long-file-name)", "save:"+c.SavePath)
 			return
 		}
 		if lerr != nil || !sameIdentity(newLoaded, c.New) || ref.Err != "" {
